@@ -6,6 +6,12 @@
      (judge (v V) (rtype N) (fns (TYPE PROC CAPS)+) (bis TYPE+) (resources NAME+) REG)
         V, REG exactly as harness/src/bin/qv_typed.rs prints them
         -> (verdict accept|reject|undecided|illformed) (wt 0|1) (depth D) (fo 0|1)
+           and, when the verdict is reject: (lenient 0|1) (fnres 0|1)
+             lenient: the judgement on the registry in which every Cycle and every tuple type with
+                      a Cycle field (a variant of a recursive type) reads as top (only used to
+                      classify a failure as "a component of a recursive type is typed wrongly"); fnres: the value inhabits the DECLARED result type of some
+                      function of the program (classifies "the call site's type is narrower than
+                      the callee's"); nevertop: the judgement with the empty union read as top
            wt: wt_valueb of the value (every tuple's fields inhabit its tuple type's field types)
            fo: the value holds no function/process (the fragment `inhabv_sound_fo` covers)
      (enum (t N) (depth D) (cap C) (fns ..) (bis ..) (resources ..) REG)
@@ -128,6 +134,21 @@ let run_sigs () =
   print_endline (String.concat " " (List.map (fun ((n, p), r) ->
       Printf.sprintf "(sig %s %s %s)" (name n) (dump_spec p) (dump_spec r)) sig_table))
 
+(* lenient reading used ONLY to classify a failure: a tuple type one of whose fields is a
+   back-reference (Cycle), i.e. a variant of a recursive type, reads as top (TCycle 0 is
+   unconstrained in Sem.v), and so does every Cycle *)
+let lenient_prog (p : tprog) : tprog =
+  let reg = p.tp_reg in
+  let is_cycle id = match lookup_type reg id with Some (TCycle _) -> true | _ -> false in
+  let open_t = function
+    | TCycle _ -> TCycle O
+    | TTuple tid as t ->
+      (match lookup_tuple reg tid with
+       | Some info when List.exists (fun (_, ft) -> is_cycle ft) info.tfields -> TCycle O
+       | _ -> t)
+    | t -> t in
+  { p with tp_reg = { reg with types = List.map open_t reg.types } }
+
 let run_judge args =
   let p = prog_of args in
   let v = match find "v" args with Some [v] -> value_of v | _ -> failwith "no value" in
@@ -136,8 +157,19 @@ let run_judge args =
     | Accept -> "accept" | Reject -> "reject" | Undecided -> "undecided" | IllFormed -> "illformed" in
   let wt = wt_valueb p walk_fuel sig_cap sig_depth v in
   let depth = match erase p v with Some e -> int_of_nat (vdepth e) | None -> 0 in
-  Printf.printf "(verdict %s) (wt %d) (depth %d) (fo %d)\n" verdict (if wt then 1 else 0) depth
-    (if first_order v then 1 else 0)
+  let extra =
+    if verdict <> "reject" then "" else begin
+      let len = (match judge (lenient_prog p) walk_fuel sig_cap sig_depth v t with Accept -> 1 | _ -> 0) in
+      let fnres = List.exists (fun c ->
+          match lookup_type p.tp_reg c with
+          | Some (TCallable (_, r, _)) -> (match judge p walk_fuel sig_cap sig_depth v r with Accept -> true | _ -> false)
+          | _ -> false) p.tp_fn_type in
+      let never_top = { p with tp_reg = { p.tp_reg with types = List.map (function TUnion [] -> TCycle O | t -> t) p.tp_reg.types } } in
+      let nt = (match judge never_top walk_fuel sig_cap sig_depth v t with Accept -> 1 | _ -> 0) in
+      Printf.sprintf " (lenient %d) (fnres %d) (nevertop %d)" len (if fnres then 1 else 0) nt
+    end in
+  Printf.printf "(verdict %s) (wt %d) (depth %d) (fo %d)%s\n" verdict (if wt then 1 else 0) depth
+    (if first_order v then 1 else 0) extra
 
 let run_enum args =
   let p = prog_of args in
